@@ -2,7 +2,7 @@
    the stack invariant of Proofs/StackInv.v is preserved by shifts, reductions and error recovery. *)
 From Coq Require Import ZArith.
 From AidlV Require Import Model.LrDriver Proofs.Totality Proofs.Typing Proofs.Ainfer Proofs.UserTyped Proofs.Automaton
-  Proofs.StackInv Proofs.LexerSafe.
+  Proofs.StackInv Proofs.LexerSafe Proofs.Keywords.
 
 (* ---- what the finite table checks say about a single table entry ---- *)
 Lemma rows_len : length gen_action_rows = gen_nstates.  Proof. vm_compute. reflexivity. Qed.
@@ -70,30 +70,33 @@ Section Safe.
   Notation stack_ok := (stack_ok cx).
   Notation has_type := (has_type cx).
 
-  Definition accept_type : vty := TOpt (TAst "Aidl").
+  Definition accept_type : vty := TLoud (TAst "Aidl").
+  (* the level of a parser state: has an Error been pushed? *)
+  Definition lvl (p : pst) : bool := errb (ps_diags p).
 
-  Lemma stack_syms_valid states syms : stack_ok states syms -> Forall (fun x => valid (tstart x) /\ valid (tend x)) syms.
+  Lemma stack_syms_valid l states syms : stack_ok l states syms -> Forall (fun x => valid (tstart x) /\ valid (tend x)) syms.
   Proof. induction 1 as [|s' X t st x syms H IH HA HP [V1 [V2 _]]]; constructor; auto. Qed.
 
   (* the action of a legitimate reduction gets arguments of the types it expects and returns the type of its nonterminal *)
-  Lemma action_typed states syms p k nt act kind lb la :
-    stack_ok states syms -> reduce_ok (hd 0%N states) p = true -> production p = (k, nt, act, kind) -> valid lb -> valid la ->
-    has_type (if N.eqb kind 2 then accept_type else nt_type nt) (fst (gen_action act cx lb la (rev (firstn k syms)))).
+  Lemma action_typed l states syms p k nt act kind lb la :
+    stack_ok l states syms -> reduce_ok (hd 0%N states) p = true -> production p = (k, nt, act, kind) -> valid lb -> valid la ->
+    has_type (l || errb (snd (gen_action act cx lb la (rev (firstn k syms)))))
+             (if N.eqb kind 2 then accept_type else nt_type nt) (fst (gen_action act cx lb la (rev (firstn k syms)))).
   Proof.
-    intros HS HR HP Hlb Hla. destruct (popped_typed cx WF _ _ _ _ _ _ _ HS HR HP) as [_ F].
+    intros HS HR HP Hlb Hla. destruct (popped_typed cx WF l _ _ _ _ _ _ _ HS HR HP) as [_ F].
     pose proof (prod_is_typed p (reduce_ok_range cx WF _ _ HR)) as T. unfold prod_typed in T. rewrite HP in T.
     destruct (ainfer user_sig gen_actions action_fuel act (map sym_type (rhs_of p))) as [t|] eqn:E; [|discriminate].
     eapply sub_sound; [exact T|].
-    exact (ainfer_sound cx user_sig gen_actions (user_typed cx WF) action_fuel act _ t lb la _ E Hlb Hla F).
+    exact (ainfer_sound cx user_sig gen_actions (user_typed cx WF) action_fuel act l _ t lb la _ E Hlb Hla F).
   Qed.
 
-  Lemma stack_push states syms s' X x :
-    stack_ok states syms -> acc s' = Some X -> In (hd 0%N states) (preds s') -> typed_triple (sym_type X) x ->
-    stack_ok (s' :: states) (x :: syms).
+  Lemma stack_push l states syms s' X x :
+    stack_ok l states syms -> acc s' = Some X -> In (hd 0%N states) (preds s') -> typed_triple l (sym_type X) x ->
+    stack_ok l (s' :: states) (x :: syms).
   Proof. intros H A P T. inversion H; subst; cbn [hd] in P; econstructor; eauto. Qed.
 
   Definition lexer_ok (p : pst) : Prop := ps_rest p = [] \/ at_offset cx (ps_rest p) (ps_off p).
-  Definition pst_ok (p : pst) : Prop := stack_ok (ps_states p) (ps_syms p) /\ valid (ps_last p) /\ lexer_ok p.
+  Definition pst_ok (p : pst) : Prop := stack_ok (lvl p) (ps_states p) (ps_syms p) /\ valid (ps_last p) /\ lexer_ok p.
 
   Definition same_lexer (p p' : pst) : Prop := ps_last p' = ps_last p /\ ps_rest p' = ps_rest p /\ ps_off p' = ps_off p.
 
@@ -109,13 +112,13 @@ Section Safe.
     pst_ok p -> reduce_ok (top_state p) idx = true -> ola_ok la ->
     match reduce cx p idx la with
     | RCont p' => pst_ok p' /\ same_lexer p p'
-    | RAccept p' v => has_type accept_type v
+    | RAccept p' v => has_type (lvl p') accept_type v
     | RPanic _ => False
     end.
   Proof.
     intros [HS [HL HX]] HR Hla. unfold reduce. destruct (production idx) as [[[k nt] act] kind] eqn:HP.
-    destruct (popped_typed cx WF _ _ _ _ _ _ _ HS HR HP) as [Hk F].
-    pose proof (stack_syms_valid _ _ HS) as SV.
+    destruct (popped_typed cx WF _ _ _ _ _ _ _ _ HS HR HP) as [Hk F].
+    pose proof (stack_syms_valid _ _ _ HS) as SV.
     set (popped := rev (firstn k (ps_syms p))) in *.
     assert (PV : Forall (fun x => valid (tstart x) /\ valid (tend x)) popped).
     { clear -F. induction F as [|t x ts xs [V1 [V2 _]] F' IH]; constructor; auto. }
@@ -128,21 +131,22 @@ Section Safe.
     { unfold stop. destruct popped as [|t0 l0] eqn:EP; [exact Vstart|].
       assert (I : In (last (t0 :: l0) (0%N, VBad, 0%N)) (t0 :: l0)) by (apply last_in; discriminate).
       rewrite Forall_forall in PV. apply PV in I. tauto. }
-    pose proof (action_typed _ _ _ _ _ _ _ start stop HS HR HP Vstart Vstop) as T. fold popped in T.
-    destruct (gen_action act cx start stop popped) as [v ds]. cbn [fst] in T.
+    pose proof (action_typed _ _ _ _ _ _ _ _ start stop HS HR HP Vstart Vstop) as T. fold popped in T.
+    destruct (gen_action act cx start stop popped) as [v ds]. cbn [fst snd] in T.
     assert (NP : v <> VPanic) by (intros ->; eapply has_type_not_panic; exact T).
+    assert (LV : forall a b c d e, lvl (PSt a b c d e (ps_diags p ++ ds)) = lvl p || errb ds) by (intros; unfold lvl; cbn; apply errb_app).
     destruct (N.eqb_spec kind 2) as [->|Hkind].
-    - destruct v; first [exact T|exfalso; apply NP; reflexivity].
+    - destruct v; first [rewrite LV; exact T|exfalso; apply NP; reflexivity].
     - assert (C : pst_ok (PSt (gen_goto (hd 0%N (skipn k (ps_states p))) nt :: skipn k (ps_states p))
                               ((start, v, stop) :: skipn k (ps_syms p)) (ps_last p) (ps_rest p) (ps_off p) (ps_diags p ++ ds))
                  /\ same_lexer p (PSt (gen_goto (hd 0%N (skipn k (ps_states p))) nt :: skipn k (ps_states p))
                               ((start, v, stop) :: skipn k (ps_syms p)) (ps_last p) (ps_rest p) (ps_off p) (ps_diags p ++ ds))).
-      { split; [|repeat split]. split; [|split; [exact HL|exact HX]]. cbn [ps_states ps_syms].
-        pose proof (stack_pop cx WF k _ _ HS Hk) as HS'.
+      { split; [|repeat split]. split; [|split; [exact HL|exact HX]]. rewrite LV. cbn [ps_states ps_syms].
+        pose proof (stack_pop cx WF _ k _ _ HS Hk) as HS'.
         destruct (reduce_ok_spec _ _ _ _ _ _ HR HP) as [_ [_ G]]. specialize (G Hkind).
-        pose proof (stack_back cx WF _ _ HS k Hk) as B. rewrite nth_skipn_hd in B.
+        pose proof (stack_back cx WF _ _ _ HS k Hk) as B. rewrite nth_skipn_hd in B.
         destruct (G _ B) as [A P].
-        apply (stack_push _ _ _ (SNT nt)); [exact HS'|exact A|exact P|]. repeat split; assumption. }
+        apply (stack_push _ _ _ _ (SNT nt)); [apply stack_ok_lift; exact HS'|exact A|exact P|]. repeat split; assumption. }
       destruct v; first [exact C|exfalso; apply NP; reflexivity].
   Qed.
 
@@ -150,21 +154,21 @@ Section Safe.
   Definition tok_ok (s : N) (text : str) (e : N) (col : nat) : Prop :=
     valid s /\ valid e /\ (col < gen_ncols - 1)%nat /\ token_lang (N.of_nat col) text.
   Definition same_stack (p p' : pst) : Prop := ps_states p' = ps_states p /\ ps_syms p' = ps_syms p.
-  Definition out_ok (r : outcome3) : Prop :=
-    match r with Done v => has_type accept_type v | Failed e => err_ok cx e | Panicked => False | OutOfFuel => True end.
+  Definition out_ok (p : pst) (r : outcome3) : Prop :=
+    match r with Done v => has_type (lvl p) accept_type v | Failed e => err_ok cx e | Panicked => False | OutOfFuel => True end.
 
   Lemma next_tok_safe p : pst_ok p ->
     match next_tok p with
     | Found p' s text e col => pst_ok p' /\ same_stack p p' /\ tok_ok s text e col
     | AtEof p' => pst_ok p' /\ same_stack p p'
-    | Stop p' r => out_ok r
+    | Stop p' r => out_ok p' r
     end.
   Proof.
     intros [HS [HL HX]]. unfold next_tok. destruct HX as [E|HA].
     - rewrite E. unfold lex1. cbn [length lex_next]. split; [|split; reflexivity].
       split; [exact HS|]. split; [exact HL|left; reflexivity].
     - pose proof (lex1_ok cx _ _ HA) as L.
-      destruct (lex1 (ps_rest p) (ps_off p)) as [a idx text stop rest| |loc]; cbn [lexed_ok] in L.
+      destruct (lex1 (ps_rest p) (ps_off p)) as [a idx text stop rest| |loc] eqn:LX; cbn [lexed_ok] in L.
       + destruct L as [Va [Vs [Hrest [j [r [sk [fuel [Ei [Hn M]]]]]]]]].
         destruct (gen_token_to_integer idx) as [col|] eqn:G.
         * split; [split; [exact HS|split; [exact Vs|right; exact Hrest]]|]. split; [split; reflexivity|].
@@ -174,7 +178,8 @@ Section Safe.
           -- pose proof misc_checked as C. unfold check_misc in C. apply andb_true_iff in C as [_ C].
              rewrite forallb_forall in C. assert (I : In j (seq 0 (length gen_lex_table))) by (apply in_seq; lia).
              specialize (C j I). rewrite G in C. apply N.ltb_lt in C. lia.
-          -- rewrite N2Nat.id. exists j, r, sk, rest, fuel. auto.
+          -- rewrite N2Nat.id. split; [exists j, r, sk, rest, fuel; auto|].
+             intros ->. exact (ident_token_ok _ _ _ _ _ _ _ LX Hj G).
         * cbn. split; assumption.
       + split; [|split; reflexivity]. split; [exact HS|]. split; [exact HL|left; reflexivity].
       + exact L.
@@ -189,7 +194,7 @@ Section Safe.
   Lemma error_reductions_safe la : ola_ok la -> forall fuel p, pst_ok p ->
     match error_reductions cx fuel p la with
     | RCont p' => pst_ok p' /\ same_lexer p p'
-    | RAccept _ v => has_type accept_type v
+    | RAccept p' v => has_type (lvl p') accept_type v
     | RPanic _ => False
     end.
   Proof.
@@ -221,7 +226,7 @@ Section Safe.
     match r with
     | RecFound p' s t e col => pst_ok p' /\ tok_ok s t e col
     | RecEof p' => pst_ok p'
-    | RecStop _ r => out_ok r
+    | RecStop p' r => out_ok p' r
     end.
 
   Lemma rev_firstn_rev {A} n (l : list A) : rev (firstn n (rev l)) = skipn (length l - n) l.
@@ -236,8 +241,8 @@ Section Safe.
     intros He. induction fuel as [|fuel IH]; intros p la dropped Hp Hla Hd; cbn [recover_loop]; [exact I|].
     destruct (find_recover (ps_states p) (option_map (fun x => snd x) la)) as [top|] eqn:FR.
     - destruct (find_recover_spec _ _ _ FR) as [above [st [below [es [E1 [E2 E3]]]]]].
-      destruct Hp as [HS [HL HX]]. pose proof (stack_syms_valid _ _ HS) as SV.
-      pose proof (stack_len cx _ _ HS) as LEN.
+      destruct Hp as [HS [HL HX]]. pose proof (stack_syms_valid _ _ _ HS) as SV.
+      pose proof (stack_len cx _ _ _ HS) as LEN.
       assert (LS : length (ps_states p) = (length above + S top)%nat) by (rewrite E1, app_length; cbn; lia).
       rewrite !rev_firstn_rev.
       replace (length (ps_states p) - (top + 1))%nat with (length above) by lia.
@@ -261,12 +266,12 @@ Section Safe.
         - assert (I : In d dropped) by (apply in_rev; rewrite RD; left; reflexivity).
           unfold dropped_ok in Hd. rewrite Forall_forall in Hd. apply Hd in I. tauto. }
       assert (Hk : (length above <= length (ps_syms p))%nat) by lia.
-      pose proof (stack_pop cx WF _ _ _ HS Hk) as HS'. rewrite SK in HS'.
+      pose proof (stack_pop cx WF _ _ _ _ HS Hk) as HS'. rewrite SK in HS'.
       destruct (shift_legit _ _ _ err_col E3) as [A P].
       assert (NP : pst_ok (PSt (es :: st :: below) ((start, VErr error, stop) :: skipn (length above) (ps_syms p))
                                (ps_last p) (ps_rest p) (ps_off p) (ps_diags p))).
-      { split; [|split; [exact HL|exact HX]]. cbn [ps_states ps_syms].
-        apply (stack_push _ _ _ SErr); [exact HS'|exact A|exact P|]. repeat split; assumption. }
+      { split; [|split; [exact HL|exact HX]]. change (stack_ok (lvl p) (es :: st :: below) ((start, VErr error, stop) :: skipn (length above) (ps_syms p))).
+        apply (stack_push _ _ _ _ SErr); [exact HS'|exact A|exact P|]. repeat split; assumption. }
       destruct la as [[[[s t] e] col]|]; cbn [rec_ok]; [split; [exact NP|exact Hla]|exact NP].
     - destruct la as [[[[s t] e] col]|]; [|exact He].
       assert (Hd' : dropped_ok (dropped ++ [(s, t, e)])).
@@ -306,7 +311,7 @@ Section Safe.
   Qed.
 
   (* ---- the main loops ---- *)
-  Lemma parse_eof_safe : forall fuel p, pst_ok p -> out_ok (snd (parse_eof cx fuel p)).
+  Lemma parse_eof_safe : forall fuel p, pst_ok p -> out_ok (fst (parse_eof cx fuel p)) (snd (parse_eof cx fuel p)).
   Proof.
     induction fuel as [|fuel IH]; intros p Hp; cbn [parse_eof]; [exact I|].
     destruct (as_reduce (eof_action_at (top_state p))) as [r|] eqn:E.
@@ -317,7 +322,7 @@ Section Safe.
   Qed.
 
   Definition wl_ok (x : pst * option outcome3 * bool) : Prop :=
-    match x with (p', Some r, _) => out_ok r | (p', None, _) => pst_ok p' end.
+    match x with (p', Some r, _) => out_ok p' r | (p', None, _) => pst_ok p' end.
 
   Lemma with_lookahead_safe : forall fuel p s text e col,
     pst_ok p -> tok_ok s text e col -> wl_ok (with_lookahead cx fuel p s text e col).
@@ -325,12 +330,13 @@ Section Safe.
     induction fuel as [|fuel IH]; intros p s text e col Hp Ht; cbn [with_lookahead]; [exact I|].
     assert (Hc : (col < gen_ncols)%nat) by (destruct Ht as [_ [_ [H _]]]; lia).
     destruct (as_shift (action_at (top_state p) col)) as [target|] eqn:ES.
-    - cbn [wl_ok]. destruct Hp as [HS [HL HX]]. split; [|split; [exact HL|exact HX]]. cbn [ps_states ps_syms].
+    - cbn [wl_ok]. destruct Hp as [HS [HL HX]]. split; [|split; [exact HL|exact HX]].
+      change (stack_ok (lvl p) (target :: ps_states p) ((s, VTok text, e) :: ps_syms p)).
       destruct (shift_legit _ _ _ Hc ES) as [A P]. destruct Ht as [V1 [V2 [Hlt TL]]].
       assert (CS : col_sym col = ST (N.of_nat col)).
       { unfold col_sym. destruct (Nat.eqb_spec col (gen_ncols - 1)); [lia|reflexivity]. }
-      rewrite CS in A. apply (stack_push _ _ _ (ST (N.of_nat col))); [exact HS|exact A|exact P|].
-      repeat split; assumption.
+      rewrite CS in A. apply (stack_push _ _ _ _ (ST (N.of_nat col))); [exact HS|exact A|exact P|].
+      split; [exact V1|split; [exact V2|exact TL]].
     - destruct (as_reduce (action_at (top_state p) col)) as [r|] eqn:ER.
       + assert (Hs : ola_ok (Some s)) by (destruct Ht; assumption).
         pose proof (reduce_safe p r (Some s) Hp (reduce_legit _ _ _ Hc ER) Hs) as R.
@@ -343,7 +349,7 @@ Section Safe.
         * exact R.
   Qed.
 
-  Lemma parse_loop_safe : forall fuel p, pst_ok p -> out_ok (snd (parse_loop cx fuel p)).
+  Lemma parse_loop_safe : forall fuel p, pst_ok p -> out_ok (fst (parse_loop cx fuel p)) (snd (parse_loop cx fuel p)).
   Proof.
     induction fuel as [|fuel IH]; intros p Hp; cbn [parse_loop]; [exact I|].
     pose proof (next_tok_safe p Hp) as NT.
@@ -355,24 +361,25 @@ Section Safe.
     - exact NT.
   Qed.
 
-  Theorem parse_safe : out_ok (snd (parse cx)).
+  Theorem parse_safe : out_ok (fst (parse cx)) (snd (parse cx)).
   Proof.
     unfold parse. apply parse_loop_safe. split; [constructor|]. split; [apply valid_zero|].
     right. exists []. split; reflexivity.
   Qed.
 
-  Lemma accept_shape v : has_type accept_type v -> v = VOpt None \/ exists a, v = VOpt (Some (VAidl a)).
+  Lemma accept_shape l v : has_type l accept_type v ->
+    (v = VOpt None /\ l = true) \/ exists a, v = VOpt (Some (VAidl a)) /\ aidl_ok a.
   Proof.
-    destruct v; cbn; try contradiction. destruct o as [x|]; [|auto]. intros H. right.
+    destruct v; cbn; try contradiction. destruct o as [x|]; [|auto]. intros [H Nm]. right.
     destruct x; cbn in H; try contradiction; try discriminate. eauto.
   Qed.
 
   (* add_content neither panics nor meets an ill-typed value *)
   Theorem add_content_safe id : (exists fr, add_content cx id = Added fr) \/ add_content cx id = AddFuel.
   Proof.
-    unfold add_content. pose proof parse_safe as S. destruct (parse cx) as [p r]. cbn [snd] in S.
+    unfold add_content. pose proof parse_safe as S. destruct (parse cx) as [p r]. cbn [fst snd] in S.
     destruct r as [v|e| |]; cbn [out_ok] in S.
-    - destruct (accept_shape v S) as [->|[a ->]]; left; eauto.
+    - destruct (accept_shape _ v S) as [[-> _]|[a [-> _]]]; left; eauto.
     - left. assert (D : exists d, diag_of_error cx e = Some d).
       { destruct e as [l|l ex|a t b ex|a t b]; cbn [err_ok] in S; cbn [diag_of_error].
         - destruct (mk_range_total cx WF l l S S) as [r ->]. cbn. eauto.
@@ -382,5 +389,28 @@ Section Safe.
       destruct D as [d ->]. eauto.
     - contradiction.
     - right. reflexivity.
+  Qed.
+
+  (* ... no user-chosen identifier of a stored tree is a keyword or a reserved word *)
+  Theorem add_content_names id fr a : add_content cx id = Added fr -> fr_ast fr = Some a -> aidl_ok a.
+  Proof.
+    unfold add_content. pose proof parse_safe as S. destruct (parse cx) as [p r]. cbn [fst snd] in S.
+    destruct r as [v|e| |]; cbn [out_ok] in S; try discriminate.
+    - destruct (accept_shape _ v S) as [[-> _]|[a' [-> Hok]]]; intros H; inversion H; subst; cbn; intros E; inversion E; subst. exact Hok.
+    - destruct (diag_of_error cx e); intros H; inversion H; subst. cbn. discriminate.
+  Qed.
+
+  (* ... and failure is never silent: a stored result without a tree carries an Error *)
+  Theorem add_content_loud id fr : add_content cx id = Added fr -> fr_ast fr = None ->
+    exists d, In d (fr_diags fr) /\ d_kind d = DError.
+  Proof.
+    intros H HN. pose proof parse_safe as S. destruct (parse cx) as [p r] eqn:EP. cbn [fst snd] in S.
+    destruct r as [v|e| |]; cbn [out_ok] in S.
+    - unfold add_content in H. rewrite EP in H.
+      destruct (accept_shape _ v S) as [[-> L]|[a' [-> _]]]; inversion H; subst; [|discriminate HN].
+      cbn. apply errb_spec. exact L.
+    - exact (proj2 (add_content_failed_has_error cx id fr p e EP H)).
+    - contradiction.
+    - unfold add_content in H. rewrite EP in H. discriminate.
   Qed.
 End Safe.
